@@ -56,6 +56,11 @@ CREATION_FAMILY: list[ModelGrammar] = [
         "L": ("concrete", "R", [("v", INT)]), "M": ("concrete", "S", []),
         "N": ("concrete", "R", [("a", uni(C("R"), C("S")))]),
     }, ["L", "M", "N"]),
+    ModelGrammar("an intermediate abstract type that is neither supplied nor used as a field type", "Expr", {
+        "Expr": ("abstract", None, []), "Atom": ("abstract", "Expr", []),
+        "Lit": ("concrete", "Atom", [("v", INT)]), "Zero": ("concrete", "Atom", []),
+        "Neg": ("concrete", "Expr", [("e", C("Expr"))]),
+    }, ["Lit", "Zero", "Neg"]),
     ModelGrammar("concrete start symbol with two abstract fields", "Top", {
         "Top": ("concrete", None, [("a", C("Bot")), ("k", INT)]),
         "Bot": ("abstract", None, []), "B1": ("concrete", "Bot", []), "B2": ("concrete", "Bot", [("w", C("Bot"))]),
